@@ -4,15 +4,17 @@ import KoordVerif.Model.C03
 Driver for C03.  One case = one history.  `D` = number of dimensions; a resource list is `D`
 pairs `<present 0|1> <value>`.
   dims <D>
-  quota <name> <parent> <max: D pairs> <min: D pairs>      add, or update max/min (same parent)
+  quota <name> <parent> <isParent> <allowLent> <max: D pairs> <min: D pairs>
+                                                           OnQuotaAdd / OnQuotaUpdate: add, max/min update, re-parenting
+                                                           (parent differs) or tree reset (is-parent / allow-lent differs)
   rt <name> <runtime: D pairs>                             runtime list held after RefreshRuntime
   poddef <id> <quota> <nonPreemptible> <request: D pairs>  a pod object
   podadd <id> | res <id> | unres <id> | del <id>           OnPodAdd / Reserve / Unreserve / OnPodDelete
   att <id> <runtimeSwitch> <checkParentSwitch>             PreFilter
   cap <D ints>                                             cluster capacity changed (no model state)
 Output: `v <status code>` after `att`; after every other op one line per group sorted by name:
-  `q <name> <D used> <D nonPreemptibleUsed>`.
-Anything the model does not cover (default-quota fall-back, re-parenting, …) ⇒ `bad-op`.
+  `q <name> <D used> <D nonPreemptibleUsed> <D selfUsed> <D selfNonPreemptibleUsed>`.
+Anything the model does not cover (unregistered parent, a new parent inside the moved subtree, …) ⇒ `bad-op`.
 -/
 namespace KoordVerif.C03
 open KoordVerif.Proto
@@ -30,7 +32,7 @@ def insertQ (q : Quota) : List Quota → List Quota
 def dump (s : State) : List String :=
   let qs := s.quotas.foldr insertQ []
   let ds := List.range s.dims
-  qs.map fun q => s!"q {q.name} {showInts (ds.map q.used)} {showInts (ds.map q.npUsed)}"
+  qs.map fun q => s!"q {q.name} {showInts (ds.map q.used)} {showInts (ds.map q.npUsed)} {showInts (ds.map q.selfUsed)} {showInts (ds.map q.selfNp)}"
 
 structure DState where
   st  : State := init 0
@@ -46,17 +48,21 @@ def stepLine (s : DState) (line : String) : DState :=
     match nat? d with
     | some d => { s with st := init d }
     | none => bad s
-  | "quota" :: n :: p :: rest =>
-    match nat? n, nat? p, ints? rest with
-    | some n, some p, some xs =>
+  | "quota" :: n :: p :: ip :: l :: rest =>
+    match nat? n, nat? p, nat? ip, nat? l, ints? rest with
+    | some n, some p, some ip, some l, some xs =>
       let D := s.st.dims
-      if xs.length ≠ 4 * D || n = rootName then bad s else
+      if xs.length ≠ 4 * D || n = rootName || ip > 1 || l > 1 then bad s else
       let mx := mkRL (xs.take (2 * D))
       let mn := mkRL (xs.drop (2 * D))
+      let go := after s (quotaSet s.st n p (ip = 1) (l = 1) mx mn)
+      if (findQ s.st.quotas p).isNone then bad s else
       match findQ s.st.quotas n with
-      | some q => if q.parent ≠ p then bad s else after s (quotaSet s.st n p mx mn)
-      | none => if (findQ s.st.quotas p).isNone then bad s else after s (quotaSet s.st n p mx mn)
-    | _, _, _ => bad s
+      | some q =>
+        -- a new parent below the moved group would close a cycle (the webhook refuses it)
+        if q.parent ≠ p && (pathNames s.st p).contains n then bad s else go
+      | none => go
+    | _, _, _, _, _ => bad s
   | "rt" :: n :: rest =>
     match nat? n, ints? rest with
     | some n, some xs =>
